@@ -195,7 +195,7 @@ def message_reader_accepts_honest(ctx, rule):
     L = lin.Ctx()
     ct = m.args[1 + ic]
     ctw = ct.args[1] if ct.op == "agg" else ct
-    sb = [e for e in Q.calls(eng, "sta_rs::Share::from_bytes") if e["frame"] == fr.key]
+    sb = [e for e in Q.calls(eng, "sta_rs::Share::from_bytes") if e["home"] == fr.key]
     items = [("ciphertext", "lp", ctw), ("share", "lp", sb[0]["argv"][0] if sb else None), ("tag", "lp", m.args[1 + itg])]
     ok, det = reader_table(L, "bytes", items, fs)
     if not ok:
@@ -265,7 +265,7 @@ def shamir_reader_rules(ctx, R1, R3):
         ely = Q.find_all(yel, lambda t: t.op == "fp_from_repr") if yel is not None else []
         ctx.add(R3, rroot + "#x-must-be-canonical", needx, "Ok must require the x element to be in range (from_repr valid)", at)
         # the y element pushed is ct_value of a from_repr whose validity dominated the push
-        pushes = [e for e in Q.calls(eng, "::push") if e["frame"] == fr.key]
+        pushes = [e for e in Q.calls(eng, "::push") if e["home"] == fr.key]
         oky_valid = False
         if collected and yel is not None:
             # the collection exists only if every mapped element was Ok: the element's validity is a fact of the Ok path
@@ -313,7 +313,7 @@ def run(ctx):
         A = sh.args[1 + iA]
         a_w = Q.find_all(A, lambda t: t.op == "int_of")
         # S: the window handed to the Shamir decoder
-        tf = [e for e in Q.calls(eng, "TryFrom<&[u8]>>::try_from") if e["frame"] == fr.key]
+        tf = [e for e in Q.calls(eng, "TryFrom<&[u8]>>::try_from") if e["home"] == fr.key]
         s_w = tf[0]["argv"][0] if tf else None
         items = [("A", "fixed4", a_w[0].args[0] if a_w else None), ("S", "lp", s_w), ("C", "lp", sh.args[1 + iC]),
                  ("D", "lp", sh.args[1 + iD]), ("J", "rest64", sh.args[1 + iJ])]
@@ -350,7 +350,7 @@ def run(ctx):
         L = lin.Ctx()
         ct = m.args[1 + ic]
         ctw = ct.args[1] if ct.op == "agg" else ct
-        sb = [e for e in Q.calls(eng, "sta_rs::Share::from_bytes") if e["frame"] == fr.key]
+        sb = [e for e in Q.calls(eng, "sta_rs::Share::from_bytes") if e["home"] == fr.key]
         items = [("ciphertext", "lp", ctw), ("share", "lp", sb[0]["argv"][0] if sb else None), ("tag", "lp", m.args[1 + itg])]
         ok, det = reader_table(L, "bytes", items, fs)
         ctx.add("C08.R1", "sta_rs::Message::from_bytes#chunk-table", ok,
@@ -448,7 +448,7 @@ def run(ctx):
         # under this None origin the chunk is NOT completely available: len < 4 or len < 4+n or overflow
         w0 = mk("len", mk("param", "bytes"))
         short = lin.entails(L2, L2.lin(w0).add(lin.Lin(3), -1))
-        miss = any(t.op in ("no_ovf",) and v == 0 for t, rel, v in fn_) or any(t.op == "lt" and rel == "eq" and v == 1 for t, rel, v in fn_) or \
+        miss = any(t.op in ("no_ovf", "range_ok") and v == 0 for t, rel, v in fn_) or any(t.op == "lt" and rel == "eq" and v == 1 for t, rel, v in fn_) or \
             any(t.op == "discr" and v == 1 for t, rel, v in fn_)
         if not (short or miss):
             okn = False
